@@ -66,7 +66,7 @@ def sort_case(draw, tier):
         # the container form of the input (tuple of tuples, __iter__-only object, rows that are neither list nor tuple ...)
         "form": draw(st.sampled_from(["lists", "lists", "lists"] + catgen.FORMS)),
         # the input may itself be a sorted petl view (by the first field, either direction) - sort of a sort
-        "upstream": draw(st.sampled_from(["none", "none", "none", "sortfirst", "sortfirst-rev", "sortsame"])),
+        "upstream": draw(st.sampled_from(["none", "none", "none", "sortfirst", "sortfirst-rev", "sortsame", "sortlast", "sortlast-rev"])),
     }
 
 
@@ -93,6 +93,9 @@ def check_sort(case, ctx):
         inner = [list(r) for r in R.ref_sort(tbl, k0, True)]
     elif up == "sortsame":
         inner = [list(r) for r in R.ref_sort(tbl, key, reverse)]
+    elif up in ("sortlast", "sortlast-rev"):
+        # the two-pass idiom sort(sort(t, k2), k1): rows tied on the outer key keep the order the inner sort gave them
+        inner = [list(r) for r in R.ref_sort(tbl, len(tbl[0]) - 1, up.endswith("rev"))]
     exp = R.ref_sort(inner, key, reverse)
     idx = _key_indices(tbl[0], key)
     keys = [R.keyof(r, idx) for r in exp[1:]]
@@ -134,6 +137,8 @@ def check_sort(case, ctx):
                     insrc = etl.sort(src, k0, reverse=True)
                 elif up == "sortsame":
                     insrc = etl.sort(src, key, reverse=reverse)
+                elif up in ("sortlast", "sortlast-rev"):
+                    insrc = etl.sort(src, len(tbl[0]) - 1, reverse=up.endswith("rev"))
                 ctx.label("upstream:" + up)
                 view = etl.sort(insrc, key, **kw)
             outs = [[tuple(r) for r in view] for _ in range(case["passes"])]
